@@ -108,6 +108,18 @@ CHECKS = {
             "bounded exhaustive enumeration of (array, generated access program) pairs executed through the real Numba lowering, differential oracle against the interpreter"),
 }
 
+L3_NOTES = {
+    "C01": " Tier L3 half: ak.Array.__getitem__ with user-level slice objects (lists, lists with None, awkward arrays, partitioned indexes) on eager and partitioned arrays.",
+    "C03": " Tier L3 half: ak.sum/prod/... at every axis and axis=None with mask_identity/keepdims on eager and partitioned arrays; ragged rows with distinct labels; encodings of one value must agree where two answers are admitted.",
+    "C05": " Tier L3 half: ak.num/local_index/flatten (incl. axis=None and result types), ak.ravel, ak.unflatten laws.",
+    "C06": " Tier L3 half: ak.sort/ak.argsort at every axis on eager and partitioned arrays; every leaf dtype at its extremes; lists beyond the small-input thresholds.",
+    "C07": " Tier L3 half: ak.combinations/argcombinations (fields=) and ak.cartesian/argcartesian (lists and dicts, nested) against itertools.",
+    "C08": " Tier L3 half: ak.concatenate at axis 0, 1, -1 incl. option-of-list inputs; operands with reversed record field order.",
+    "C09": " Tier L3 half: ak.pad_none/fill_none(axis)/is_none(axis)/mask incl. option records; option nodes spanning several mask bytes.",
+    "C10": " Tier L3 half: ak.fields, x['k'], x.k, ak.unzip, ak.zip, ak.with_field, __setitem__; field-list projections at depth.",
+    "C14": " Tier L3 half: ak.from_iter and the high-level ak.ArrayBuilder over singles, pairs and triples of a 24-value atom menu.",
+}
+
 ENGINES = [
     {"name": "E4", "path": "mirror/install.py mirror/*.py checks/c04_broadcasting.py checks/c16_conversions.py checks/c20_numba.py mirror/numba_compat.py",
      "serves_properties": ["C04", "C16", "C20"],
@@ -140,7 +152,8 @@ def main():
             "evidence_file": "/verif/evidence/%s.json" % pid,
             "replay_cmd_template": "./check %s --replay {path}" % pid,
             "engine": engine,
-            "level_claimed": {"category": level, "text": text, "design_ref": "DESIGN.md section 5, %s" % pid},
+            "level_claimed": {"category": level, "text": text + L3_NOTES.get(pid, ""),
+                              "design_ref": "DESIGN.md section 5 and 13.2, %s" % pid},
             "level_note": TRUST,
             "technique": technique,
         })
